@@ -2,7 +2,7 @@
    The provider of a case is a closed-form stub whose value depends on every argument of the
    accessor call and of the evaluate() call; harness/c03_impl.py implements the same stub in Python
    for the real models, so a wrong species, charge, donor, density or argument order changes the value. *)
-Require Import Cherab.Common.Qx Cherab.Model.C03_Passive Cherab.Model.C03_Brems.
+Require Import Cherab.Common.Qx Cherab.Model.C03_Passive Cherab.Model.C03_Brems Cherab.Model.C03_Gaunt.
 From Coq Require Import Qabs.
 Open Scope Q_scope.
 
@@ -31,6 +31,9 @@ Definition abs_comp (comp : composition) : composition := map (fun s => set_dens
 
 (* ---- comparing outcomes ------------------------------------------------------------------- *)
 Definition line_tol : Q := pow2 (-44).
+(* results below 2^-800 are treated as equal: they only arise from subnormal / tiny inputs, where the double
+   product underflows while the exact rational does not *)
+Definition tiny : Q := pow2 (-800).
 
 Definition out_agree (tol : Q) (m i : outcome) : bool :=
   match m, i with
@@ -89,7 +92,7 @@ Definition check_line (kind : Z) (fresh : bool) (g : stubcfg) (l : line) (ne te 
   let m := line_model kind (stub_provider g) l ne te comp in
   let mag := emitted (line_model kind (stub_provider (abs_cfg g)) l ne te (abs_comp comp)) in
   let '(calls, evals, target, tsamp) := line_expect kind l ne te comp m in
-  out_agree (line_tol * mag) m i_out && zll_eqb (if fresh then calls else []) i_calls && qll_eqb evals i_evals
+  out_agree (line_tol * mag + tiny) m i_out && zll_eqb (if fresh then calls else []) i_calls && qll_eqb evals i_evals
   && zlist_eqb (if fresh || is_emit m then target else []) i_target && zll_eqb tsamp i_tsamp.
 
 (* ---- TotalRadiatedPower ------------------------------------------------------------------- *)
@@ -126,7 +129,7 @@ Definition check_total (fresh : bool) (g : stubcfg) (hyd : list Z) (e c znum : Z
   let m := total_power_radiance (stub_provider g) hyd e c znum ne te comp minw maxw in
   let mag := emitted (total_power_radiance (stub_provider (abs_cfg g)) hyd e c znum ne te (abs_comp comp) minw maxw) in
   let '(calls, evals) := total_expect g e c znum ne te comp hyd m in
-  out_agree_total (line_tol * mag) m i_out && zll_eqb (if fresh then calls else []) i_calls && qll_eqb evals i_evals &&
+  out_agree_total (line_tol * mag + tiny) m i_out && zll_eqb (if fresh then calls else []) i_calls && qll_eqb evals i_evals &&
   (* every bin holds the same double *)
   (if is_emit m then Nat.eqb (length i_bins) nbins && forallb (fun b => Qeq_bool b (emitted i_out)) i_bins
    else forallb (fun b => Qeq_bool b 0) i_bins).
@@ -134,7 +137,7 @@ Definition check_total (fresh : bool) (g : stubcfg) (hyd : list Z) (e c znum : Z
 (* ---- RadiationFunction ---------------------------------------------------------------------- *)
 Definition check_radfn (phi minw maxw : Q) (nbins : nat) (i_bins : list Q) : bool :=
   let m := radiation_function_bin phi minw maxw in
-  Nat.eqb (length i_bins) nbins && forallb (fun b => Qle_bool (Qabs (b - m)) (pow2 (-48) * Qabs m)) i_bins.
+  Nat.eqb (length i_bins) nbins && forallb (fun b => Qle_bool (Qabs (b - m)) (pow2 (-48) * Qabs m + tiny)) i_bins.
 
 (* ---- oracle tables ---------------------------------------------------------------------------- *)
 Fixpoint lookup (tab : list (Q * Q)) (x : Q) : option Q :=
@@ -165,7 +168,7 @@ Definition check_bremsfn (C : consts) (sq ex : list (Q * Q)) (g0 g1 g2 g3 : Q) (
   let gf := gstub g0 g1 g2 g3 in
   let m := brems_function C (oracle sq) (oracle ex) gf ne te zs wvl in
   let mag := brems_function C (oracle sq) (oracle ex) (fun z t w => Qabs (gf z t w)) ne te zs wvl in
-  sqrt_tab_ok sq && Qle_bool (Qabs (m - i_val)) (brems_tol * Qabs mag).
+  sqrt_tab_ok sq && Qle_bool (Qabs (m - i_val)) (brems_tol * Qabs mag + tiny).
 (* harness fault detector: every oracle argument the model asks for is in the tables *)
 Definition bremsfn_keys_ok (C : consts) (sq ex : list (Q * Q)) (te wvl : Q) : bool :=
   has_key sq 3 && has_key sq (2 * c_me C / (c_pi C * c_e C)) && has_key sq te &&
@@ -194,9 +197,53 @@ Definition check_brems (tol : Q) (P : Z) (C : consts) (sq ex : list (Q * Q)) (g0
   | Some bins =>
     (* the stub Gaunt factor is positive, so all terms of a bin have one sign: tolerance relative to the bin itself *)
     Qle_bool 0 g0 && Qle_bool 0 g1 && Qle_bool 0 g2 && Qle_bool 0 g3 &&
-    forallb2 (fun mb ib => Qle_bool (Qabs (mb - ib)) (tol * Qabs mb)) bins i_bins &&
+    forallb2 (fun mb ib => Qle_bool (Qabs (mb - ib)) (tol * Qabs mb + tiny)) bins i_bins &&
     (* the Gaunt factor was asked for exactly the charges of the species that take part *)
     let zs := map (fun s => zq (s_charge s)) (filter (fun s => Z.ltb 0 (s_charge s) && pos (s_dens s)) comp) in
     forallb (fun z => existsb (Qeq_bool z) i_zs) zs && forallb (fun z => existsb (Qeq_bool z) zs) i_zs
   | None => forallb (fun b => Qeq_bool b 0) i_bins && match i_zs with [] => true | _ => false end
   end.
+
+(* ---- InterpolatedFreeFreeGauntFactor.evaluate ---------------------------------------------------------------
+   u_d and g2_d are the doubles the implementation computes (recomputed by the harness with the same operations);
+   they must be the correctly rounded values of the model's exact u and gamma2 up to 2^-50, and the branch is decided
+   on them exactly (so that inputs sitting exactly on a bound, or one ulp beside it, are decided without ambiguity).
+   ln4u = log(4 / u_d) from libm, interp_val from a twin raysect interpolator: oracles.  code: 0 zero, 1 classical,
+   2 Born, 3 interpolated - reported by the harness only to show the distribution; the value decides. *)
+Definition check_gaunt (C : consts) (ryd sqrt3 : Q) (umin umax g2min g2max : Q) (z te wvl u_d g2_d ln4u interp_val : Q)
+           (i_val : Q) : bool :=
+  let u := gaunt_u (exp_factor C) te wvl in
+  let g2 := gaunt_gamma2 ryd z te in
+  let b := gaunt_branch umin umax g2min g2max z u_d g2_d in
+  let m := gaunt_value sqrt3 (c_pi C) ln4u interp_val b in
+  relclose (pow2 (-50)) u_d u && (Qeq_bool z 0 || relclose (pow2 (-50)) g2_d g2) &&
+  Qle_bool (Qabs (sqrt3 * sqrt3 - 3)) (pow2 (-50)) &&
+  match b with
+  | GZero | GClassical | GInterp => Qeq_bool m i_val
+  | GBorn => Qle_bool (Qabs (m - i_val)) (pow2 (-44) * (Qabs (ln4u) + 1))
+  end.
+Definition gaunt_code (umin umax g2min g2max z u_d g2_d : Q) : Z :=
+  match gaunt_branch umin umax g2min g2max z u_d g2_d with GZero => 0 | GClassical => 1 | GBorn => 2 | GInterp => 3 end%Z.
+
+(* every constant of constants.pyx against its documented value (CODATA 2018 / exact expressions in the double M_PI), in the
+   order of the file: (reference, log2 of the relative tolerance).  HC_EV_NM and BOHR_MAGNETON carry their CODATA 2014
+   values in the file (8.4e-9 and 8.3e-10 away from 2018); neither is used by the passive emission models, so they are
+   only held to 2^-26 / 2^-29 here and the discrepancy is reported in the evidence. *)
+Definition consts_ref : list (Q * Z) := [
+  ((140737488355328 # 884279719003555), (-50)%Z)  (* RECIP_2_PI *);
+  ((70368744177664 # 884279719003555), (-50)%Z)  (* RECIP_4_PI *);
+  ((176855943800711 # 10133099161583616), (-50)%Z)  (* DEGREES_TO_RADIANS *);
+  ((10133099161583616 # 176855943800711), (-50)%Z)  (* RADIANS_TO_DEGREES *);
+  ((8302695333 # 5000000000000000000000000000000000000), (-50)%Z)  (* ATOMIC_MASS *);
+  ((801088317 # 5000000000000000000000000000), (-50)%Z)  (* ELEMENTARY_CHARGE *);
+  ((299792458 # 1), (-50)%Z)  (* SPEED_OF_LIGHT *);
+  ((132521403 # 200000000000000000000000000000000000000000), (-50)%Z)  (* PLANCK_CONSTANT *);
+  ((6621486190496429 # 5340588780000), (-26)%Z)  (* HC_EV_NM *);
+  ((14089701631 # 5000000000000000000000000), (-50)%Z)  (* ELECTRON_CLASSICAL_RADIUS *);
+  ((18218767403 # 20000000000000000000000000000000000000000), (-50)%Z)  (* ELECTRON_REST_MASS *);
+  ((6802846561497 # 500000000000), (-50)%Z)  (* RYDBERG_CONSTANT_EV *);
+  ((5533867383 # 625000000000000000000), (-50)%Z)  (* VACUUM_PERMITTIVITY *);
+  ((2894190903 # 50000000000000), (-29)%Z)  (* BOHR_MAGNETON *)].
+Definition consts_all_wf (gen : list Q) : bool :=
+  Nat.eqb (length gen) (length consts_ref) &&
+  forallb (fun gr => relclose (pow2 (snd (snd gr))) (fst gr) (fst (snd gr))) (combine gen consts_ref).
